@@ -3,6 +3,7 @@ package main
 import (
 	"encoding/json"
 	"fmt"
+	"os"
 	"go/ast"
 	"go/parser"
 	"go/token"
@@ -267,6 +268,9 @@ func checkC02(tier string, seed int64) int {
 		f gosx.Failure
 	}
 	var fails []fail
+	if os.Getenv("GOSX_ONLY_WINDOWS") != "" {
+		progs = nil
+	}
 	parallel(len(progs), c.Eng.Workers, func(i int) {
 		p := progs[i]
 		rep := c.exploreOpt(p, st)
@@ -304,6 +308,46 @@ func checkC02(tier string, seed int64) int {
 			Replay: map[string]interface{}{"kind": "opt", "src": f.p.Src, "entry": f.p.Entry, "params": f.p.Params, "results": f.p.Results, "model": f.f.Model, "strlen": f.p.StrLen, "assertion": f.f.ID}})
 	})
 	agg.Into(c, "")
+	// rule lemmas (shape L): symbolic instruction windows through the real doOptimize and exec
+	if os.Getenv("GOSX_NO_WINDOW") == "" {
+		win, fix := 2, 3
+		if tier == "thorough" {
+			win, fix = 2, 4
+		}
+		kinds := 0
+		if tier == "thorough" {
+			kinds = 1
+		}
+		c.Eng.Cfg = map[string]int{"c02_window": win, "c02_fix_window": fix, "c02_kinds": kinds}
+		c.Eng.MaxPaths = 3_000_000
+		lagg := NewAgg()
+		var res []lemmaResult
+		for _, h := range []string{"verifH_C02_fixpoint", "verifH_C02_window"} {
+			rep := c.Eng.ExploreWith(func(ex *gosx.Exec) {
+				ex.InitPackage(c.Eng.Pkg)
+				_, pan := ex.Call(ex.Func(h))
+				if pan != nil {
+					ex.Assert(ex.TT().Bool(false), h+"/escaping-panic", ex.PanicText(pan), nil)
+				}
+			}, "z3", c.Eng.Workers)
+			lagg.Add(rep)
+			c.Sample(map[string]interface{}{"harness": h, "paths": rep.Paths, "paths_by_end": rep.ByEnd, "assertions_discharged": rep.Asserts, "failures": len(rep.Failures), "wall_s": rep.Wall.Seconds()})
+			res = append(res, lemmaResult{Name: h, Report: rep, Failures: rep.Failures})
+			if os.Getenv("GOSX_VERBOSE") != "" {
+				seen := map[string]int{}
+				for _, f := range rep.Failures {
+					seen[f.ID]++
+					if seen[f.ID] <= 4 {
+						fmt.Fprintf(os.Stderr, "FAIL %s %s :: %s\n", f.ID, modelString(f.Model), f.Msg)
+					}
+				}
+				fmt.Fprintf(os.Stderr, "failure counts: %v\n", seen)
+			}
+		}
+		c.confirmLemmaFailures(res, func(id string) string { return "optimizer rule lemma " + strings.TrimPrefix(id, "C02/L/") + " fails" })
+		lagg.Into(c, "windows_")
+		c.Cov("window_bounds", c.Eng.Cfg)
+	}
 	c.Cov("corpora", corp)
 	c.Cov("paths_compared", st.compared)
 	c.Cov("both_modes_fail_paths", st.bothPanic)
